@@ -8,7 +8,7 @@
 
    Control: a block of statements denotes a [ctl S R]: it falls through with the values S of the variables
    it assigned, returns R from the function, or panics (index / slice bounds, division by zero, negative
-   shift count). *)
+   shift count). The run-time checks of a statement appear as [if checks then statement else Panic]. *)
 From Coq Require Import List NArith ZArith Bool.
 Import ListNotations.
 Open Scope Z_scope.
@@ -18,8 +18,6 @@ Arguments Next {S R} s. Arguments Return {S R} r. Arguments Panic {S R}.
 
 Definition bindc {S S' R} (c : ctl S R) (k : S -> ctl S' R) : ctl S' R :=
   match c with Next s => k s | Return r => Return r | Panic => Panic end.
-(* the run-time checks of a statement: all must hold, else the statement panics *)
-Definition go_guard {S R} (ok : bool) (c : ctl S R) : ctl S R := if ok then c else Panic.
 (* call of a translated function from a translated function: the callee's result (or panic) *)
 Definition go_call {S S' R R'} (c : ctl S R) (k : R -> ctl S' R') : ctl S' R' :=
   match c with Return r => k r | _ => Panic end.
@@ -29,10 +27,16 @@ Definition wrapU (w z : Z) : Z := z mod 2 ^ w.
 Definition wrapS (w z : Z) : Z := (z + 2 ^ (w - 1)) mod 2 ^ w - 2 ^ (w - 1).
 
 Definition go_len {A} (l : list A) : Z := Z.of_nat (length l).
-Definition go_nth {A} (l : list A) (i : Z) (d : A) : A := nth (Z.to_nat i) l d.
+(* indexing and slicing recurse over the list (never over the number), so that they evaluate cheaply whatever the index *)
+Fixpoint go_nth {A} (l : list A) (i : Z) (d : A) : A :=
+  match l with [] => d | a :: r => if i <=? 0 then a else go_nth r (i - 1) d end.
 Definition go_in_range {A} (l : list A) (i : Z) : bool := (0 <=? i) && (i <? go_len l).
+Fixpoint go_drop {A} (l : list A) (n : Z) : list A :=
+  match l with [] => [] | _ :: r => if n <=? 0 then l else go_drop r (n - 1) end.
+Fixpoint go_take {A} (l : list A) (n : Z) : list A :=
+  match l with [] => [] | a :: r => if n <=? 0 then [] else a :: go_take r (n - 1) end.
 (* l[lo:hi]; the capacity of a slice is not modelled: hi beyond len(l) counts as a panic *)
-Definition go_slice {A} (l : list A) (lo hi : Z) : list A := firstn (Z.to_nat (hi - lo)) (skipn (Z.to_nat lo) l).
+Definition go_slice {A} (l : list A) (lo hi : Z) : list A := go_take (go_drop l lo) (hi - lo).
 Definition go_slice_ok {A} (l : list A) (lo hi : Z) : bool := (0 <=? lo) && (lo <=? hi) && (hi <=? go_len l).
 
 Fixpoint go_bytes_eqb (a b : list N) : bool :=
@@ -71,13 +75,14 @@ Fixpoint go_range_from {A S R} (i : Z) (l : list A) (f : Z -> A -> S -> ctl S R)
   end.
 Definition go_range {A S R} (l : list A) (f : Z -> A -> S -> ctl S R) (s : S) : ctl S R := go_range_from 0 l f s.
 
-(* for init; cond; post { body } with the loop state s: [fuel] iterations at most; running out of fuel is
-   reported as a panic so that an equivalence proof has to show the fuel sufficient *)
-Fixpoint go_for {S R} (fuel : nat) (cond : S -> bool) (body : S -> ctl S R) (s : S) : ctl S R :=
-  match fuel with
-  | O => if cond s then Panic else Next s
-  | Datatypes.S f => if cond s then bindc (body s) (go_for f cond body) else Next s
+(* for i := a; i < n; i++ { body } where the body assigns neither i nor anything n depends on: the body runs for
+   i = a, a+1, .., n-1 (not at all when n <= a); i stays below n, so i++ never wraps *)
+Fixpoint go_count_from {S R} (k : nat) (i : Z) (f : Z -> S -> ctl S R) (s : S) : ctl S R :=
+  match k with
+  | O => Next s
+  | Datatypes.S k' => bindc (f i s) (go_count_from k' (i + 1) f)
   end.
+Definition go_count {S R} (a n : Z) (f : Z -> S -> ctl S R) (s : S) : ctl S R := go_count_from (Z.to_nat (n - a)) a f s.
 
 (* the representation invariant of []byte / string values *)
 Definition bytes_ok (l : list N) : Prop := Forall (fun b => (b < 256)%N) l.
